@@ -414,21 +414,27 @@ pub fn global_parse_float(
 
 // Global isNaN - converts argument to number first
 pub fn global_is_nan(
-    _interp: &mut Interpreter,
+    interp: &mut Interpreter,
     _this: JsValue,
     args: &[JsValue],
 ) -> Result<Guarded, JsError> {
-    let n = args.first().map(|v| v.to_number()).unwrap_or(f64::NAN);
+    let n = match args.first() {
+        Some(v) => interp.coerce_to_number(v)?,
+        None => f64::NAN,
+    };
     Ok(Guarded::unguarded(JsValue::Boolean(n.is_nan())))
 }
 
 // Global isFinite - converts argument to number first
 pub fn global_is_finite(
-    _interp: &mut Interpreter,
+    interp: &mut Interpreter,
     _this: JsValue,
     args: &[JsValue],
 ) -> Result<Guarded, JsError> {
-    let n = args.first().map(|v| v.to_number()).unwrap_or(f64::NAN);
+    let n = match args.first() {
+        Some(v) => interp.coerce_to_number(v)?,
+        None => f64::NAN,
+    };
     Ok(Guarded::unguarded(JsValue::Boolean(n.is_finite())))
 }
 
